@@ -108,8 +108,22 @@ impl<'a> Docs<'a> {
         s
     }
 
-    /// contents of one file / stdin, by class
+    /// contents of one file / stdin, by class; now and then behind a first line in the style of
+    /// the repository's own fixture files (`/// typstyle: reorder-import-items`: a convention of
+    /// the test harness - to the formatter it is a comment like any other, and whatever a
+    /// front-end makes of it, the text it yields has to be the library's for the given options)
     pub fn content(&mut self) -> Bytes {
+        let b = self.content_plain();
+        if self.rng.chance(0.06) && !b.0.is_empty() && std::str::from_utf8(&b.0).is_ok() {
+            let head = *self.rng.pick(&["/// typstyle: reorder-import-items\n", "/// typstyle: reorder-import-items\n", "/// typstyle: reorder-import-items=false\n", "/// typstyle: off\n", "// typstyle: reorder-import-items\n"]);
+            let mut v = head.as_bytes().to_vec();
+            v.extend_from_slice(&b.0);
+            return Bytes(v);
+        }
+        b
+    }
+
+    fn content_plain(&mut self) -> Bytes {
         let w = [22u32, 34, 9, 3, 3, 5, 4, 4, 3, 4, 5, 4, 5, 3, 3, 4, 3, 1];
         match self.rng.weighted(&w) {
             0 => self.formatted(self.main_cfg).into(),
@@ -729,7 +743,7 @@ pub fn gen_inv(rng: &mut Rng, tree: &Tree, docs: &mut Docs, focus: Focus, main_s
 /// the debug options dump the whole syntax tree / layout document: only for small, shallow worlds
 /// (a dump of a 2 MiB file or of 2000 nesting levels tests the Debug implementations of the
 /// dependencies, not the front-end)
-fn debug_output_is_small(tree: &Tree, stdin: Option<&[u8]>) -> bool {
+pub fn debug_output_is_small(tree: &Tree, stdin: Option<&[u8]>) -> bool {
     fn shallow(b: &[u8]) -> bool {
         let mut depth = 0i32;
         for &c in b {
@@ -758,7 +772,7 @@ fn debug_output_is_small(tree: &Tree, stdin: Option<&[u8]>) -> bool {
             }
         }
     }
-    total < 48 * 1024
+    total < 16 * 1024
 }
 
 /// a few environment variables a front-end might be tempted to look at
